@@ -24,6 +24,10 @@ def run(ctx, rep):
     for impl in net.impls_present(ctx):
         loop_rules(ctx, rep, impl)
     rep.floor("R7.2", 5 * len(net.impls_present(ctx)))
+    # "exactly one TINY_NONE frame": the reply goes out through Framed::write, which must hand the whole encoded frame to a
+    # complete-write call - a single write that may stop short leaves a truncated reply on the wire (C06's R6.1 / R6.2)
+    from props import c06
+    c06.write_rules(ctx, rep)
 
 
 def plain_decoding(ctx, rep):
